@@ -447,6 +447,40 @@ def r5(F, R):
 
 
 
+def r6(F, R):
+    R.rule("C19-R6", "the preset a trace was written with can be told from its metadata: the (sampler_name(), adaptation_name()) tag pair, which the Zarr backends "
+                     "store next to `sampler_settings`, is a pair of constants per Settings impl and no two presets share a pair - otherwise the stored settings "
+                     "object is read back as another preset (or fails to load)")
+    tags = {}
+    for fn in ("sampler_name", "adaptation_name"):
+        for b in F.trait_method_impls("Settings", fn):
+            if not b.path.startswith("<sampler::"):
+                continue
+            vals = []
+            for d in b.defs().get(0, []):
+                if d[0] == "stmt" and d[3]["k"] == "assign":
+                    vals.append(b.rvalue_value(d[3]["rv"]))
+            lit = [v[1] for v in vals if v[0] == "const"] if vals else []
+            adt = b.parent.get("self_ty") or b.parent.get("self_adt") or b.path
+            tags.setdefault(adt, {})[fn] = lit[0].strip('"') if len(lit) == 1 and len(vals) == 1 else None
+    if len(tags) < 2:
+        R.missing("C19-R6", "Settings::sampler_name / adaptation_name impls (found %d)" % len(tags))
+        return
+    seen_pairs = {}
+    for adt, t in sorted(tags.items()):
+        key = "%s:tags" % adt.replace("sampler::", "").replace("adapt_strategy::", "").replace("transform::", "")[:90]
+        pair = (t.get("sampler_name"), t.get("adaptation_name"))
+        if None in pair:
+            R.bad("C19-R6", key, adt, "the preset tags are not constants: %s" % (pair,))
+            continue
+        if pair in seen_pairs:
+            R.bad("C19-R6", key, adt, "presets %s and %s both write the tag pair %s into the trace metadata" % (seen_pairs[pair][:80], adt[:80], pair))
+        else:
+            seen_pairs[pair] = adt
+            R.ok("C19-R6", key, adt, "tags %s" % (pair,))
+    R.floor("C19-R6", 6)
+
+
 def run(F, R, config=None):
     seen = r1(F, R)
     if "parallel" in C10.features(F):
@@ -456,6 +490,7 @@ def run(F, R, config=None):
     r3(F, R)
     r4(F, R, seen)
     r5(F, R)
+    r6(F, R)
     R.assume("serde_derive: #[derive(Serialize, Deserialize)] without attributes are mutual inverses through serde_json::Value for structs/enums of scalars, Option and nested such types")
     R.assume("serde_json::Value represents every finite f64 and every u64 exactly (non-finite floats are excluded by the property)")
 
